@@ -449,6 +449,7 @@ def load_known_findings(prop: str) -> dict[str, dict[str, Any]]:
 # ---------------------------------------------------------------------------
 
 _ENGINE: Engine | None = None
+RUN_WALL_BACKSTOP_S = 900
 _MAX_VIOL_PER_CHUNK = 10
 _STOP_AFTER_VIOLATIONS = 60
 
@@ -473,10 +474,11 @@ def _run_chunk(args: tuple[str, int, int, int, int, int]) -> ChunkResult:
     prop, vseed, start, count, n_digest, n_samples = args
     eng = _ENGINE
     assert eng is not None and eng.prop == prop
-    faulthandler.dump_traceback_later(900, exit=True)
     out = ChunkResult(start, count)
     try:
         for i in range(start, start + count):
+            # wall-clock backstop per run (not per chunk): kills the worker -> exit 2
+            faulthandler.dump_traceback_later(RUN_WALL_BACKSTOP_S, exit=True)
             want_trace = i < n_digest or i < n_samples
             res, rec = run_seeded(eng, vseed, i, want_trace)
             merge_stats(out.stats, res.stats)
@@ -604,12 +606,12 @@ def _merge(br: BatchResult, r: ChunkResult) -> None:
 # ---------------------------------------------------------------------------
 
 
-def _fresh_digests(prop: str, vseed: int, n: int, hashseed: str) -> subprocess.Popen[str]:
+def _fresh_digests(prop: str, vseed: int, n: int, hashseed: str, tier: str = "quick") -> subprocess.Popen[str]:
     env = dict(os.environ)
     env["PYTHONHASHSEED"] = hashseed
     env["VERIF_SEED"] = str(vseed)
     return subprocess.Popen(
-        [PYTHON, "-m", "simverif", prop, "--digests", str(n)],
+        [PYTHON, "-m", "simverif", prop, "--digests", str(n), "--tier", tier],
         cwd=VERIF_DIR,
         env=env,
         stdout=subprocess.PIPE,
@@ -627,6 +629,7 @@ def write_replay(
     v: Violation,
     original_len: int,
     shrink_execs: int,
+    tier: str = "quick",
 ) -> str:
     os.makedirs(REPLAY_DIR, exist_ok=True)
     res, norm = run_record(eng, record, True)
@@ -637,6 +640,7 @@ def write_replay(
         "property": prop,
         "engine": eng.engine_name,
         "verif_seed": vseed,
+        "tier": tier,
         "run": run,
         "run_seed": derive_seed(prop, vseed, run),
         "record": norm,
@@ -677,10 +681,10 @@ def replay_file(prop: str, path: str) -> int:
     return 1
 
 
-def print_digests(prop: str, n: int) -> int:
+def print_digests(prop: str, n: int, tier: str = "quick") -> int:
     eng = ENGINES[prop]()
     vseed = int(os.environ.get("VERIF_SEED", "0") or 0)
-    eng.prepare("quick", vseed)
+    eng.prepare(tier, vseed)
     out = {}
     for i in range(n):
         res, _ = run_seeded(eng, vseed, i, True)
@@ -711,7 +715,7 @@ def check(prop: str, tier: str) -> int:
 
     # -- self tests (harness): failures exit 2, never a VIOLATION ------------
     hs_other = "12345" if os.environ.get("PYTHONHASHSEED") != "12345" else "54321"
-    fresh = _fresh_digests(prop, vseed, n_self, hs_other)
+    fresh = _fresh_digests(prop, vseed, n_self, hs_other, tier)
     for msg in eng.selftests():
         print(f"HARNESS-SELFTEST-FAILED: {msg}")
         fresh.kill()
@@ -787,7 +791,7 @@ def check(prop: str, tier: str) -> int:
         else:
             small, execs = shrink(eng, rec, v.klass())
         n0 = sum(len(s) for s in rec.values())
-        path = write_replay(prop, eng, vseed, run, small, v, n0, execs)
+        path = write_replay(prop, eng, vseed, run, small, v, n0, execs, tier)
         env = dict(os.environ)
         env["PYTHONHASHSEED"] = hs_other
         p = subprocess.run(
@@ -883,7 +887,7 @@ def main(argv: list[str] | None = None) -> int:
         if a.replay:
             return replay_file(a.prop, a.replay)
         if a.digests is not None:
-            return print_digests(a.prop, a.digests)
+            return print_digests(a.prop, a.digests, a.tier)
         return check(a.prop, a.tier)
     except HarnessError as e:
         print(f"HARNESS-ERROR: {e}")
